@@ -68,6 +68,23 @@ inside Coq (seg_edges: C10_seg_edges_valid), the observations are handed over sp
 not empty) and compared in Coq (c10_big_case) with the model of build_trees (np.digitize evaluated by skipping chunks of edges:
 C10_chunked_digitize) and with the closed-side rule evaluated directly on the listed bins; C10_big_case_sound: code 0 means that
 ALL bins, listed or not, hold what the rule says.
+
+Binnings that are NEARLY but not exactly equal ('near' family): the same binning obtained on different construction routes - decimal
+edges typed by hand, np.linspace, the edges the implementation generates itself (linear / comoving / logspace), zmin + k * step, repeated
+addition, np.arange, text with 16 / 15 / 12 / 9 significant digits or 6 decimals read back, float32 values widened, single edges moved by
+1 ... 8 units in the last place (np.nextafter) - same closed side, same number of bins, edge arrays that differ from one unit in the last
+place up to about 10^-6 relative.  Redshifts sit exactly on every variant of a contested edge, on the floats next to them and between them
+(incl. two-decimal catalog values that coincide with a typed edge), so membership under two variants differs.  Histories of the cache whose
+binnings are such variants of the requested one (trees built for A explicitly or implicitly by a measurement, chains A, C, back and forth B,
+A, partial and interrupted rebuilds), then Catalog.build_trees WITHOUT force / autocorrelate / crosscorrelate with B: the cache of every
+patch, HistData and the measurement's sum_weights are compared by the history checker c10_cache_case (whose cache model compares binnings
+EXACTLY) with the closed-side rule of the binning requested NOW, on the exact rational values of the float64 edges and redshifts.  The
+comparison itself is observed as well: Binning / BinningConfig / Configuration == and !=, BinnedTrees.binning_equal on trees cached for the
+first binning, for all ordered pairs of variants (and the same array twice, and the other closed side), compared in Coq (c10_eq_case) with
+the exact comparison binning_eqb.  Model/BinningEq.v, Proofs/BinningEqP.v: the cache decision with the comparison as a parameter;
+C10_cache_comparison_sufficient / C10_cache_comparison_exact_only: the cache is correct for every patch exactly when `equal` implies
+exactly equal closed side and edges; C10_tolerant_equality_refuted: every np.allclose-like comparison with a positive tolerance accepts two
+valid binnings that put a redshift on an edge into different bins.
 """
 import copy
 import itertools
@@ -95,6 +112,8 @@ TRUSTED = [
     "yaw.catalog.trees.build_trees, which BinnedTrees.build calls between removing the patch's binning file and writing the new trees, "
     "is replaced for that step by a wrapper that raises a BaseException at the (fuel+1)-th call (serial builds only); a process "
     "killed at another instruction of BinnedTrees.build is not reproduced (C07 / C18 territory)",
+    "near family: python-side float comparisons (contested_values, rel_class, gen_member in label_history) shape the inputs and word the "
+    "labels / reports; the verdicts are the Coq codes of c10_cache_case and c10_eq_case on the exact rational values",
     "large family: the per-bin observations (up to 10^5 trees / histogram entries / rows of sum_weights) are re-encoded by the harness as "
     "(number of entries, [(index, value) for the entries that are not (0, 0.0) resp. 0.0]) before they are handed to Coq (sparse_of); "
     "the float64 edge array handed to yaw is computed with exact integer arithmetic in units of 2^-20 and is the array seg_edges builds in Coq "
@@ -102,7 +121,9 @@ TRUSTED = [
     "only word the report of a failure (which bins, which kind), the verdict is the Coq code",
 ]
 ASSUMPTIONS = [
-    "redshifts, edges and weights are dyadic rationals with few bits, so every float64 sum is exact and is compared with Qeq_bool",
+    "redshifts, edges and weights are dyadic rationals with few bits, so every float64 sum is exact and is compared with Qeq_bool "
+    "(near family: edges and redshifts are arbitrary float64 values, handed to Coq as their exact rational values; they are only compared, "
+    "never added; the weights keep few bits)",
     "objects handed to the model are the input rows grouped by their named patch (C02: the catalog stores exactly these)",
     "patch ids are 0..P-1 (PatchedSumWeights indexes columns by patch id)",
     "linked family: every binned sample holds at least one object inside the binning in every patch (otherwise the pinned commit stops at "
@@ -115,6 +136,9 @@ ASSUMPTIONS = [
     "c10_cache_case, evaluated in Coq; otherwise the pinned commit stops at c10-empty-patch-unboundlocal); the steps of a history "
     "run serially, the measured build also on worker processes; Catalog.build_trees visits the patches in the order of their ids "
     "(the model of an interrupted build; checked through the observed cache before the measured build, flag 5)",
+    "near family: every patch holds the midpoint of a bin of the reference variant, which lies strictly inside every variant (the variants "
+    "agree to about six digits, the bins are at least 0.01 wide; flag 8 of c10_cache_case checks it); the edges the implementation generates "
+    "itself (zmin / zmax / num_bins, linear / comoving / logspace) are INPUTS of the cases, whatever their values (C15 judges them)",
     "large family: for generated edges (zmin, zmax, num_bins, method linear) the case is evaluated when the edge array the implementation "
     "reports equals the exact linear edges lo + k * step (step a power of two); otherwise it is counted and skipped, and more than 20% "
     "skipped cases break an obligation; the measurement uses angular scales (unit arcmin), the per-bin sum_weights do not depend on the scales",
@@ -134,7 +158,9 @@ RULE = ("cases = (closed side, weight column present, edges, per-patch lists of 
         "hold trees for the requested binning (another binning, different binnings, or no trees in some patch); "
         "large cases = (closed side, weight column, lo, segments (step, count) of the edge array, custom / generated edges, per-patch "
         "(redshift, weight) lists, consumers observed, where the work is done); non-trivial when a redshift lies on a bin edge or outside "
-        "the binning, or an object lies in a bin whose index is >= 127")
+        "the binning, or an object lies in a bin whose index is >= 127; "
+        "near cases = history cases whose binnings are near-equal variants (construction routes) of the requested one, non-trivial as history "
+        "cases; near-eq cases = (object type, closed sides, the two edge arrays), non-trivial when the two binnings are not the same")
 
 HEADER = "From Verif Require Import Prelude Binning.\nOpen Scope Q_scope.\n"
 
@@ -1454,6 +1480,8 @@ def interpret_history(ctx, idx, spec, obs, info, c, cu):
     case = ("history", idx)
     how = flavour_of(spec)
     how = ":" + how if how else ""
+    if spec.get("near"):        # the binnings of the history are near-equal variants of the requested one ('near' family)
+        how = ":near-equal-binnings" + how
     via = "Catalog.build_trees(force=%s)" % spec["force"] if spec["final"] == "build_trees" else "%scorrelate" % spec["meas"]
     def steps_text(steps):
         return "; ".join("%s%s with %s" % (
@@ -1515,7 +1543,7 @@ def interpret_history(ctx, idx, spec, obs, info, c, cu):
                      "trees, histogram and measurement sum_weights are mutually inconsistent: %s" % obs, replay, case=case)
 
 
-def run_history_family(ctx, specs, name="History_C10"):
+def run_history_family(ctx, specs, name="History_C10", shard=100):
     terms, kept = [], []
     for idx, spec in enumerate(specs):
         try:
@@ -1538,7 +1566,7 @@ def run_history_family(ctx, specs, name="History_C10"):
     ctx.log("%d cache histories observed (%d evaluations), evaluating in Coq" % (len(kept), len(terms)))
     if not terms:
         return []
-    codes = ctx.shards(name, HEADER, terms, shard=100)
+    codes = ctx.shards(name, HEADER, terms, shard=shard)
     hyp_ok = sum(1 for c in codes if c is not None and not (c & 256))
     ctx.extra["hypotheses_checked_history"] = {
         "every binning of the history and the requested one valid, an object of every patch inside each, patch ids exist "
@@ -2026,6 +2054,364 @@ def run_large(ctx, specs, name="Large_C10"):
     return codes
 
 
+# ---------------------------------------------------------------- near-equal binnings ('near' family)
+HEADER_EQ = "From Verif Require Import Prelude Binning BinningEq.\nOpen Scope Q_scope.\n"
+NEAR_ROUTES = ["linear", "linear", "linear", "nextafter", "nextafter", "comoving", "logspace", "float32", "text", "text"]
+NEAR_TEMPLATES = ["near-then-requested"] * 4 + ["near-via-measurement"] * 2 + [
+    "near-chain", "near-back-and-forth", "partial-rebuild", "stale-subset", "three-binnings", "interrupted-rebuild",
+    "interrupted-measurement", "random"]
+
+
+def ulp_shift(x, k):
+    """the float64 |k| units in the last place above (k > 0) / below (k < 0) x"""
+    x = float(x)
+    for _ in range(abs(int(k))):
+        x = float(np.nextafter(x, np.inf if k > 0 else -np.inf))
+    return x
+
+
+def ulp_distance(a, b):
+    """number of float64 values between two positive finite floats (labels / report texts only)"""
+    ia, ib = np.asarray([a, b], dtype="f8").view("i8")
+    return abs(int(ia) - int(ib))
+
+
+def valid_edges(e):
+    return len(e) >= 2 and all(np.isfinite(x) for x in e) and all(a < b for a, b in zip(e, e[1:]))
+
+
+def generated_edges(zmin, zmax, nb, method, closed):
+    """the edges the implementation generates itself from zmin / zmax / num_bins (an INPUT of the cases below: what a user who
+    configures an automatic binning gets), None when it refuses"""
+    from yaw.config import BinningConfig
+    try:
+        b = BinningConfig.create(zmin=zmin, zmax=zmax, num_bins=nb, method=method, closed=closed).binning
+        return [float(x) for x in np.asarray(b.edges, dtype="f8")]
+    except Exception:  # noqa: BLE001 - not the subject here (C15)
+        return None
+
+
+def decimal_edges(rng, nbmax=9):
+    """edges that are decimal literals with two digits: (zmin_n + k * step_n) / 100, correctly rounded = what one types by hand"""
+    step_n = rng.choice([1, 2, 5, 10, 10, 15, 20, 25, 30])
+    zmin_n = rng.choice([1, 5, 7, 10, 10, 15, 20, 30, 35])
+    nb = rng.randrange(2, nbmax + 1)
+    return zmin_n, step_n, nb, [(zmin_n + k * step_n) / 100.0 for k in range(nb + 1)]
+
+
+def shifted_variant(rng, base, kmax=3):
+    while True:
+        ks = [rng.choice([0, 0] + [k for k in range(-kmax, kmax + 1) if k]) for _ in base]
+        if any(ks):
+            return [ulp_shift(x, k) for x, k in zip(base, ks)]
+
+
+def near_variants(rng, closed, route=None):
+    """(route, [(name, edges)]) with at least two DIFFERENT edge arrays of one length, all valid binnings, which agree to at least
+    about six digits: the same binning obtained on different construction routes"""
+    route = route or rng.choice(NEAR_ROUTES)
+    cand = []
+    if route == "linear":
+        zmin_n, step_n, nb, typed = decimal_edges(rng)
+        zmin, zmax, step = zmin_n / 100.0, typed[-1], step_n / 100.0
+        cand.append(("typed", typed))
+        cand.append(("np.linspace", [float(x) for x in np.linspace(zmin, zmax, nb + 1)]))
+        cand.append(("generated:linear", generated_edges(zmin, zmax, nb, "linear", closed)))
+        cand.append(("zmin+k*step", [zmin + k * step for k in range(nb + 1)]))
+        acc, cum = zmin, [zmin]
+        for _ in range(nb):
+            acc += step
+            cum.append(acc)
+        cand.append(("cumulative", cum))
+        ar = [float(x) for x in np.arange(zmin, zmax + step / 2.0, step)]
+        cand.append(("np.arange", ar if len(ar) == nb + 1 else None))
+        cand.append(("k*step+zmin:float32-step", [zmin + k * float(np.float32(step)) for k in range(nb + 1)]))
+    elif route == "nextafter":
+        kind = rng.choice(["decimal", "dyadic", "uniform"])
+        if kind == "decimal":
+            base = decimal_edges(rng)[3]
+        elif kind == "dyadic":
+            base = random_edges(rng)
+        else:
+            nb = rng.randrange(1, 8)
+            base, x = [], rng.uniform(0.01, 0.5)
+            for _ in range(nb + 1):
+                base.append(x)
+                x += rng.uniform(0.03, 0.4)
+        cand.append(("base:" + kind, base))
+        for j in range(rng.choice([1, 1, 2, 3])):
+            cand.append(("nextafter:%d" % j, shifted_variant(rng, base, kmax=rng.choice([1, 1, 1, 2, 3, 8]))))
+    elif route in ("comoving", "logspace"):
+        zmin = rng.choice([0.05, 0.1, 0.2, 0.3, 0.5])
+        zmax = round(zmin + rng.choice([0.3, 0.5, 0.7, 1.0, 1.5]), 2)
+        gen = generated_edges(zmin, zmax, rng.randrange(2, 8), route, closed)
+        if gen is not None and valid_edges(gen):
+            cand.append(("generated:" + route, gen))
+            for fmt in ("%.16g", "%.15g", "%.12g", "%.6f"):
+                cand.append(("text:" + fmt, [float(fmt % x) for x in gen]))
+            cand.append(("float32", [float(np.float32(x)) for x in gen]))
+            cand.append(("nextafter", shifted_variant(rng, gen, kmax=2)))
+    elif route == "float32":
+        base = decimal_edges(rng)[3]
+        cand.append(("typed", base))
+        cand.append(("float32", [float(np.float32(x)) for x in base]))
+        cand.append(("float32:nextafter", shifted_variant(rng, [float(np.float32(x)) for x in base], kmax=1)))
+    else:   # text: full-precision values written with fewer digits and read back
+        nb = rng.randrange(1, 8)
+        base, x = [], rng.uniform(0.01, 0.5)
+        for _ in range(nb + 1):
+            base.append(x)
+            x += rng.uniform(0.03, 0.4)
+        cand.append(("full-precision", base))
+        for fmt in ("%.16g", "%.15g", "%.12g", "%.9g", "%.6f"):
+            cand.append(("text:" + fmt, [float(fmt % v) for v in base]))
+    out, seen = [], set()
+    for name, e in cand:
+        if e is None or not valid_edges(e) or tuple(e) in seen or (out and len(e) != len(out[0][1])):
+            continue
+        seen.add(tuple(e))
+        out.append((name, [float(v) for v in e]))
+    if len(out) < 2:
+        return near_variants(rng, closed, route="nextafter")
+    if len(out) > 4:        # the first (the reference construction) and three others
+        out = [out[0]] + rng.sample(out[1:], 3)
+    return route, out
+
+
+def contested_values(variants):
+    """per edge index on which the variants disagree: every variant of the edge, the floats next below / above them and a value
+    between two variants - the redshifts whose bin depends on WHICH of the near-equal binnings is applied"""
+    out = []
+    for i in range(len(variants[0][1])):
+        vals = sorted({e[i] for _, e in variants})
+        if len(vals) < 2:
+            continue
+        c = set(vals) | {ulp_shift(vals[0], -1), ulp_shift(vals[-1], 1)}
+        for a, b in zip(vals, vals[1:]):
+            m = (a + b) / 2.0
+            if a < m < b:
+                c.add(m)
+        out.append(sorted(c))
+    return out
+
+
+def near_objects(rng, P, variants, hasw):
+    """per patch 3-8 objects: mostly on the contested values, some on the other edges / midpoints / outside, some two-decimal
+    catalog values; one bin midpoint (strictly inside every variant: the variants agree to ~6 digits, the bins are >= 0.01 wide)"""
+    base = variants[0][1]
+    nb = len(base) - 1
+    flat = [v for c in contested_values(variants) for v in c]
+    crit = critical_values(base)
+    patches = []
+    for _ in range(P):
+        zs = []
+        for _ in range(rng.randrange(2, 8)):
+            r = rng.random()
+            if r < 0.7:
+                zs.append(rng.choice(flat))
+            elif r < 0.88:
+                zs.append(rng.choice(crit))
+            else:
+                zs.append(round(rng.uniform(base[0] - 0.1, base[-1] + 0.1), 2))
+        k = rng.randrange(nb)
+        zs.insert(rng.randrange(len(zs) + 1), (base[k] + base[k + 1]) / 2.0)
+        patches.append([(float(z), rng.randrange(1, 41) / 8.0 if hasw else 1.0) for z in zs])
+    return patches
+
+
+def random_near_spec(rng, route=None, template=None, meas=None, final=None):
+    closed = rng.choice(["left", "right"])
+    hasw = rng.random() < 0.5
+    route, variants = near_variants(rng, closed, route)
+    P = rng.choice([2, 2, 3, 3, 4])
+    keys = [("near:" + name, list(e), closed) for name, e in variants]
+    req = rng.randrange(len(keys))
+    B = ("requested:" + variants[req][0], list(variants[req][1]), closed)
+    alts = [k for j, k in enumerate(keys) if j != req]
+    template = template or rng.choice(NEAR_TEMPLATES)
+    A, C = rng.choice(alts), rng.choice(alts)
+    if template == "near-then-requested":       # trees for a near-equal binning everywhere, then the request
+        history = [hstep("catalog", A)]
+    elif template == "near-via-measurement":    # ... built implicitly by a measurement
+        history = [hstep("catalog", A, via="auto")]
+    elif template == "near-chain":
+        history = [hstep("catalog", A), hstep("catalog", C, via=rng.choice(["build", "auto"]))]
+    elif template == "near-back-and-forth":
+        history = [hstep("catalog", B), hstep("catalog", A)]
+    else:
+        history = gen_history(rng, template, P, B, alts * 3 + [("unbinned", None, closed)])
+    meas = meas if meas is not None else rng.choice([None, "auto", "auto", "cross", "cross"])
+    meas = meas or None
+    final = final or (rng.choice(["build_trees", "build_trees", "measure"]) if meas else "build_trees")
+    unk_template, unk_history = None, None
+    if meas == "cross":
+        unk_template = rng.choice(UNK_TEMPLATES)
+        unk_history = gen_unk_history(rng, unk_template, P, B, alts)
+    spec = dict(tag="history:near:%s:%s%s" % (route, template, ":unk:" + unk_template if unk_template else ""), family="history",
+                near=dict(route=route, variants=[name for name, _ in variants], requested=variants[req][0],
+                          edges=[list(e) for _, e in variants]),
+                closed=closed, hasw=hasw, edges=list(B[1]), patches=near_objects(rng, P, variants, hasw), history=history,
+                final=final, force=False, meas=meas, cfg=rng.choice(["binning", "configuration"]), unk_history=unk_history)
+    r = rng.random()
+    if r < 0.12:
+        spec.update(tag=spec["tag"] + ":pickling", pool="pickling", workers=rng.choice([2, 3]), order_seed=rng.randrange(10 ** 6))
+    elif r < 0.16:
+        spec.update(tag=spec["tag"] + ":real", pool="real", workers=2)
+    return spec
+
+
+def near_probe_specs():
+    """the same generator with a fixed seed and forced (route, history, consumer) combinations: every run holds a case of each route that
+    produces differences in the last place, observed through the explicit build, the implicit build of autocorrelate and of crosscorrelate"""
+    import random
+    rng = random.Random(0xC10)
+    combos = [("linear", "near-then-requested", "", "build_trees"), ("linear", "near-via-measurement", "auto", "measure"),
+              ("nextafter", "near-then-requested", "cross", "measure"), ("nextafter", "near-chain", "auto", "build_trees"),
+              ("comoving", "near-then-requested", "auto", "measure"), ("logspace", "near-back-and-forth", "", "build_trees"),
+              ("text", "near-then-requested", "auto", "measure"), ("float32", "near-then-requested", "cross", "build_trees")]
+    out = []
+    for route, template, meas, final in combos:
+        spec = random_near_spec(rng, route=route, template=template, meas=meas, final=final)
+        for k in ("pool", "workers", "order_seed"):
+            spec.pop(k, None)
+        spec["tag"] = "history:near:probe:%s:%s" % (route, template)
+        out.append(spec)
+    return out
+
+
+def near_specs(ctx):
+    return near_probe_specs() + [random_near_spec(ctx.rng) for _ in range(ctx.n(32, 500))]
+
+
+def rel_class(a, b):
+    d = max(abs(x - y) / max(abs(y), 1e-300) for x, y in zip(a, b))
+    u = max(ulp_distance(x, y) for x, y in zip(a, b))
+    if d == 0.0:
+        return "identical"
+    if u <= 1:
+        return "1ulp"
+    if u <= 8:
+        return "2-8ulp"
+    for k in (12, 9, 6):
+        if d <= 10.0 ** -k:
+            return "rel<=1e-%d" % k
+    return "rel>1e-6"
+
+
+def run_near(ctx, specs):
+    """histories whose binnings are near-equal variants of the requested one: the history machinery and its Coq checker
+    (c10_cache_case, whose cache model compares binnings exactly) as they are; the labels of the family on top"""
+    for spec in specs:
+        nr = spec["near"]
+        ctx.bump("near:route:" + nr["route"])
+        req = spec["edges"]
+        for name, e in zip(nr["variants"], nr["edges"]):
+            if e != req:
+                ctx.bump("near:distance-to-requested:" + rel_class(e, req))
+        zs = {z for objs in spec["patches"] for z, _ in objs}
+        if any(z in e for e in nr["edges"] for z in zs):
+            ctx.bump("near:z_exactly_on_a_variant_of_an_edge")
+    before = ctx.hist.get("history:pre:stale_binning_moves_an_object", 0)
+    codes = run_history_family(ctx, specs, name="Near_C10", shard=10)      # 53-bit numerators: smaller shards, evaluated in parallel
+    moved = ctx.hist.get("history:pre:stale_binning_moves_an_object", 0) - before
+    ctx.bump("near:cached_near_equal_binning_puts_an_object_into_another_bin", moved)
+    ctx.obligation("generator:near-equal binnings: in at least a quarter of the histories the trees cached before the measured build "
+                   "belong to a near-equal binning that puts an object of the patch into ANOTHER bin than the requested one (%d of %d)"
+                   % (moved, len(specs)), len(specs) < 8 or moved * 4 >= len(specs), "moved: %d of %d" % (moved, len(specs)))
+    return codes
+
+
+# ---- the comparison itself: Binning / BinningConfig / Configuration ==, !=, BinnedTrees.binning_equal
+def near_eq_records(ctx, draws):
+    from yaw.binning import Binning
+    from yaw.catalog.trees import BinnedTrees
+    rng = ctx.rng
+    recs = []
+    for d in range(draws):
+        closed = rng.choice(["left", "right"])
+        route, variants = near_variants(rng, closed)
+        sides = [(name, e, closed) for name, e in variants] + [(variants[0][0] + ":other-closed-side", variants[0][1], flip(closed))]
+        # trees cached for every variant in turn: what does the cache's own comparison answer for the others
+        cache_eq = {}
+        cdir = impl.fresh_dir(ctx, "eqcat_%d" % d)
+        try:
+            base = variants[0][1]
+            cols = dict(ra=np.asarray([20.0, 20.0625]), dec=np.asarray([0.0, 0.0]), pid=np.asarray([0, 0], dtype="i8"),
+                        z=np.asarray([(base[0] + base[1]) / 2.0] * 2))
+            cat = impl.Catalog.from_dataframe(cdir, impl.make_df(cols), ra_name="ra", dec_name="dec", patch_name="pid",
+                                              redshift_name="z", max_workers=1)
+            for i, (_, ea, ca) in enumerate(sides):
+                BinnedTrees.build(cat[0], Binning(np.asarray(ea, dtype="f8"), closed=ca), force=True)
+                bt = BinnedTrees(cat[0])
+                for j, (_, eb, cb) in enumerate(sides):
+                    cache_eq[(i, j)] = bool(bt.binning_equal(Binning(np.asarray(list(eb), dtype="f8"), closed=cb)))
+        except Exception as e:  # noqa: BLE001 - counted; the comparison of the objects below does not need a catalog
+            ctx.bump("near:eq:cache-comparison-not-observed:%s" % type(e).__name__)
+        finally:
+            shutil.rmtree(cdir, ignore_errors=True)
+        for objtype in OBJTYPES:
+            for i, (na, ea, ca) in enumerate(sides):
+                for j, (nb_, eb, cb) in enumerate(sides):
+                    if objtype != "Binning" and (i + j + d) % 3:      # the wrappers delegate to Binning: a third of the pairs each
+                        continue
+                    rec = dict(obj=objtype, route=route, a=list(ea), b=list(eb), closed_a=ca, closed_b=cb, names=[na, nb_])
+                    try:
+                        x, y = make_obj(objtype, ca, list(ea)), make_obj(objtype, cb, list(eb))     # two objects, also for i == j
+                        rec["eq"], rec["ne"] = bool(x == y), bool(x != y)
+                    except Exception as e:  # noqa: BLE001
+                        rec["raised"] = "%s: %s" % (type(e).__name__, e)
+                    rec["cache"] = cache_eq.get((i, j)) if objtype == "Binning" else None
+                    recs.append(rec)
+    return recs
+
+
+def eval_near_eq(ctx, recs, name="NearEq_C10"):
+    terms, kept = [], []
+    for n, t in enumerate(recs):
+        tid = ("near-eq", name, n)
+        same = t["a"] == t["b"] and t["closed_a"] == t["closed_b"]
+        dist = "other-closed-side" if t["closed_a"] != t["closed_b"] else rel_class(t["a"], t["b"])
+        t["distance"] = dist
+        ctx.count(key=("near-eq", t["obj"], t["closed_a"], t["closed_b"], tuple(t["a"]), tuple(t["b"])), nontrivial=not same,
+                  kind="near-eq/%s/%s" % (t["obj"], dist))
+        if "raised" in t:
+            ctx.fail("c10-binning-equality-raises:%s:%s" % (t["obj"], t["raised"].split(":")[0]),
+                     "comparing two %s objects (edges %s closed=%s; edges %s closed=%s) raised %s" % (
+                         t["obj"], t["a"], t["closed_a"], t["b"], t["closed_b"], t["raised"]), dict(eq=t), case=tid)
+            continue
+        terms.append("c10_eq_case %s %s %s %s %s %s %s" % (
+            fq.b(t["closed_a"] == "right"), fq.qlist(t["a"]), fq.b(t["closed_b"] == "right"), fq.qlist(t["b"]),
+            fq.b(t["eq"]), fq.b(t["ne"]), fq.opt(t["cache"], fq.b)))
+        kept.append((tid, t))
+    if not terms:
+        return []
+    codes = ctx.shards(name, HEADER_EQ, terms, shard=40)
+    for (tid, t), c in zip(kept, codes):
+        # bits (set = flag false): 1 == is the exact comparison, 2 != is its negation, 4 the cache's comparison is the exact one,
+        # 8 binnings called equal keep every probe value in its bin, 16 hypotheses
+        if c is None:
+            continue
+        if c & 16:
+            ctx.obligation("generator:near-eq record %s satisfies the theorems' hypotheses" % (tid,), False, repr(t))
+            continue
+        pair = "edges %s closed=%s (%s) and edges %s closed=%s (%s), distance: %s" % (
+            t["a"], t["closed_a"], t["names"][0], t["b"], t["closed_b"], t["names"][1], t["distance"])
+        moved = " and redshifts on the edges change their bin between the two (C10_cache_comparison_exact_only)" if c & 8 else ""
+        if c & 1:
+            kind = "unequal-binnings-compare-equal" if t["eq"] else "equal-binnings-compare-unequal"
+            ctx.fail("c10-binning-equality:%s:%s" % (kind, t["obj"]),
+                     "%s == %s answers %s for %s%s" % (t["obj"], t["obj"], t["eq"], pair, moved), dict(eq=t, code=c), case=tid)
+        elif c & 2:
+            ctx.fail("c10-binning-equality:ne-is-not-the-negation-of-eq:%s" % t["obj"],
+                     "%s: == answers %s and != answers %s for %s" % (t["obj"], t["eq"], t["ne"], pair), dict(eq=t, code=c), case=tid)
+        if c & 4:
+            kind = "trees-of-an-unequal-binning-accepted" if t["cache"] else "trees-of-the-equal-binning-rejected"
+            ctx.fail("c10-cache-comparison:%s" % kind,
+                     "BinnedTrees(patch).binning_equal answers %s: trees cached for the first, asked for the second of %s%s" % (
+                         t["cache"], pair, moved), dict(eq=t, code=c), case=tid)
+    return codes
+
+
 # ---------------------------------------------------------------- transports: what arrives is what was sent
 def make_obj(objtype, closed, edges):
     from yaw.binning import Binning
@@ -2170,11 +2556,35 @@ def run(ctx):
     run_linked(ctx, linked_specs(ctx))
     run_history_family(ctx, history_specs(ctx))
     run_large(ctx, large_specs(ctx))
+    run_near(ctx, near_specs(ctx))
+    eval_near_eq(ctx, near_eq_records(ctx, ctx.n(8, 120)))
     eval_transports(ctx, transport_records(ctx))
 
 
 def replay(ctx, body):
     rp = body["replay"] if "replay" in body else body
+    if "spec" not in rp and "eq" in rp:          # a comparison of two binnings: observed again
+        t = rp["eq"]
+        rec = dict(obj=t["obj"], route=t.get("route"), a=[float(x) for x in t["a"]], b=[float(x) for x in t["b"]],
+                   closed_a=t["closed_a"], closed_b=t["closed_b"], names=list(t["names"]), cache=None)
+        try:
+            x, y = make_obj(rec["obj"], rec["closed_a"], rec["a"]), make_obj(rec["obj"], rec["closed_b"], rec["b"])
+            rec["eq"], rec["ne"] = bool(x == y), bool(x != y)
+        except Exception as e:  # noqa: BLE001
+            rec["raised"] = "%s: %s" % (type(e).__name__, e)
+        if t.get("cache") is not None:
+            from yaw.binning import Binning
+            from yaw.catalog.trees import BinnedTrees
+            cdir = impl.fresh_dir(ctx, "eqcat_replay")
+            cols = dict(ra=np.asarray([20.0, 20.0625]), dec=np.asarray([0.0, 0.0]), pid=np.asarray([0, 0], dtype="i8"),
+                        z=np.asarray([(rec["a"][0] + rec["a"][1]) / 2.0] * 2))
+            cat = impl.Catalog.from_dataframe(cdir, impl.make_df(cols), ra_name="ra", dec_name="dec", patch_name="pid",
+                                              redshift_name="z", max_workers=1)
+            BinnedTrees.build(cat[0], Binning(np.asarray(rec["a"], dtype="f8"), closed=rec["closed_a"]), force=True)
+            rec["cache"] = bool(BinnedTrees(cat[0]).binning_equal(Binning(np.asarray(rec["b"], dtype="f8"), closed=rec["closed_b"])))
+            shutil.rmtree(cdir, ignore_errors=True)
+        eval_near_eq(ctx, [rec], name="ReplayNearEq_C10")
+        return
     if "spec" not in rp and "transport" in rp:
         t = rp["transport"]
         if "spec" in t:          # a binning reported by a result: replay the case it came from
